@@ -22,6 +22,9 @@ TARGET_NAMES = {105: 'a similarly named method of class namespace[ns]',
                 1: 'handlers[ns][event]', 2: "handlers[ns]['*']",
                 3: "handlers['*'][event]", 4: "handlers['*']['*']",
                 5: 'class namespace[ns]', 6: "class namespace['*']"}
+for _t in range(1, 7):
+    TARGET_NAMES[_t + 10] = 'the replacement registered for ' + \
+        TARGET_NAMES[_t]
 
 
 def classify(w):
@@ -376,6 +379,47 @@ def incremental_case(ctx, side, kind, co, rng, k):
             ctx.count('incremental_dispatches')
             if not judge(ctx, w2, rec, want_t, want_args, True, sid, env):
                 return
+        # registering a slot again replaces what was registered there (a
+        # plug-in override, a reload): the event goes to the replacement
+        for t in rng.sample(sorted(present), min(2, len(present))):
+            if t == 1:
+                reg_fn(event, 11, ns)
+            elif t == 2:
+                reg_fn('*', 12, ns)
+            elif t == 3:
+                reg_fn(event, 13, '*')
+            elif t == 4:
+                reg_fn('*', 14, '*')
+            else:
+                target.register_namespace(mk_class(
+                    base_cls, rec, t + 10, event, True, is_async, co,
+                    ns if t == 5 else '*', None))
+            del rec.calls[:]
+            args = ['again', t] + gen.gen_args(rng, True, 1, maxn=1)
+            if side == 'server':
+                tr.send_packet(R.EVENT, ns, None, [event] + args)
+                errs = d.errors()
+                base = ['<sid>'] + args
+            else:
+                h.server_send(R.EVENT, ns, None, [event] + args)
+                errs = h.all_errors()
+                base = list(args)
+            w2 = dict(w, present=sorted(present), replaced=t, args=args,
+                      class_has_method=True)
+            if errs:
+                w2['errors'] = errs
+                ctx.violation(None, '%s raised while routing an event: %s'
+                              % (side, errs[0]['exc']), w2)
+                return
+            want_t, want_args = expected(present, False, base, event, ns)
+            replaced = getattr(rec, 'replaced', set())
+            replaced.add(t)
+            rec.replaced = replaced
+            if want_t in replaced:
+                want_t += 10
+            ctx.count('dispatches_after_re_registration')
+            if not judge(ctx, w2, rec, want_t, want_args, True, sid, env):
+                return
         ctx.case(('incremental', side, kind, co, tuple(order)), None)
     finally:
         close()
@@ -591,6 +635,7 @@ def run(ctx):
         ctx.require('class_methods_from_' + home, 20)
     # registrations that arrive over time, the event dispatched in between
     ctx.require('incremental_dispatches', 100)
+    ctx.require('dispatches_after_re_registration', 30)
     for j in range(60 if ctx.tier == 'quick' else 600):
         if j % ctx.nshards != ctx.shard:
             continue
